@@ -226,6 +226,15 @@ impl<'tcx> Cx<'tcx> {
                 } else {
                     bits as i128
                 };
+                if let ty::Adt(adt, _) = t.kind() {
+                    if adt.is_enum() {
+                        for (vi, d) in adt.discriminants(self.tcx) {
+                            if d.val == bits {
+                                out.push(("variant", s(adt.variant(vi).name.to_string())));
+                            }
+                        }
+                    }
+                }
                 if size == 16 && !signed && bits > i128::MAX as u128 {
                     out.push(("val_s", s(format!("{}", bits))));
                 } else {
@@ -240,6 +249,19 @@ impl<'tcx> Cx<'tcx> {
                     if let Some(sz) = self.type_size(*inner) {
                         if sz <= (1 << 20) {
                             if let Some(b) = self.alloc_bytes(alloc_id, off.bytes(), sz) {
+                                if let ty::Adt(adt, _) = inner.kind() {
+                                    if adt.is_enum() && b.len() <= 8 {
+                                        let mut v: u128 = 0;
+                                        for (i, x) in b.iter().enumerate() {
+                                            v |= (*x as u128) << (8 * i);
+                                        }
+                                        for (vi, d) in adt.discriminants(self.tcx) {
+                                            if d.val == v {
+                                                out.push(("variant", s(adt.variant(vi).name.to_string())));
+                                            }
+                                        }
+                                    }
+                                }
                                 out.push(("bytes", s(hex(&b))));
                             }
                         }
@@ -355,7 +377,21 @@ impl<'tcx> Cx<'tcx> {
                 J::Obj(vec![("bin", J::Arr(vec![s(format!("{:?}", b)), op(&ops.0), op(&ops.1)]))])
             }
             Rvalue::UnaryOp(u, o) => J::Obj(vec![("un", J::Arr(vec![s(format!("{:?}", u)), op(o)]))]),
-            Rvalue::Discriminant(p) => J::Obj(vec![("discr", self.place(body, p))]),
+            Rvalue::Discriminant(p) => {
+                let mut o = vec![("discr", self.place(body, p))];
+                let pty = p.ty(&body.local_decls, self.tcx).ty;
+                if let ty::Adt(adt, _) = pty.kind() {
+                    if adt.is_enum() && adt.variants().len() <= 80 {
+                        let mut vs = Vec::new();
+                        for (vi, d) in adt.discriminants(self.tcx) {
+                            vs.push(J::Arr(vec![J::Str(format!("{}", d.val)), s(adt.variant(vi).name.to_string())]));
+                        }
+                        o.push(("variants", J::Arr(vs)));
+                        o.push(("enum", s(self.path(adt.did()))));
+                    }
+                }
+                J::Obj(o)
+            }
             Rvalue::CopyForDeref(p) => J::Obj(vec![("use", J::Obj(vec![("cp", self.place(body, p))]))]),
             Rvalue::Aggregate(k, ops) => {
                 let kind = match &**k {
@@ -753,6 +789,15 @@ impl rustc_driver::Callbacks for Cb {
                     }
                 }
                 _ => {}
+            }
+        }
+        // closures (and inline consts) are nested bodies, not item-likes
+        for ld in items.nested_bodies() {
+            let did = ld.to_def_id();
+            if matches!(tcx.def_kind(did), DefKind::Closure) {
+                if let Some(j) = cx.function(did) {
+                    fns.push(j);
+                }
             }
         }
         let nf = fns.len();
